@@ -54,6 +54,20 @@ def run(A, R: Report, thorough: bool):
                     witness=cfg.describe_path(after_fail) if after_fail else None, where=where(goc, s))
     ret_ok = all(isinstance(r.value, ast.Name) or isinstance(r.value, ast.Call) for r in A.typer.own_nodes(goc) if isinstance(r, ast.Return) and r.value is not None)
 
+    # ---- R14.1b a failed computation leaves the stored entry untouched
+    R.rule('R14.1b', 'get_or_compute changes the cache file only through save_value, after computer() returned (a computation that raises stores and destroys nothing)', floor=1)
+    from ..effects import FS_MUTATING, same_path, is_under
+    E = effects_of(A)
+    for ci in fc.all_subclasses(include_self=False):
+        ctx = Ctx(goc, ('inst', ci))
+        fp_term = A.sym.expr_term(ast.parse('self.filepath(key)', mode='eval').body, ctx) if False else None
+        evs = E.collect(ctx, kinds=FS_MUTATING)
+        save_nodes = set(id(s) for s in saves)
+        fpt = A.sym.func_term(ci.lookup('filepath'), ('inst', ci))
+        bad = [e for e in evs if id(e.root_node) not in save_nodes and e.target is not None and (same_path(e.target, fpt) or (e.kind == 'FS_RENAME' and e.source is not None and same_path(e.source, fpt)))]
+        R.check(not bad, 'R14.1b', f'{ci.short}.get_or_compute', key_of('entry-touched', ci.short, [e.kind for e in bad]), 'the entry is only replaced by save_value',
+                'the stored entry is deleted / rewritten outside save_value: when computer() raises (e.g. on a forced recompute) the previously stored value is lost', witness=[e.describe()[:200] for e in bad], where=where(goc))
+
     # ---- R14.2 / R14.5 per entry point
     R.rule('R14.2', 'around load_value: CacheException propagates; any other exception is not returned from and falls through to recompute / NO_VALUE', floor=2)
     R.rule('R14.5', '`force` false is a conjunct of the load guard; get() calls no computer', floor=2)
@@ -156,6 +170,11 @@ def run(A, R: Report, thorough: bool):
     full = len(slices) == 2 and len(digests) == 1 and lo_hi[0][0] != 'None' and lo_hi[0][1] == 'None' and lo_hi[1][0] == 'None' and lo_hi[1][1] == lo_hi[0][0]
     strong = any(x[0] == 'method' and x[2] == 'hexdigest' and x[1][0] == 'call' and x[1][1].split('.')[-1] in ('sha256', 'sha512', 'sha1', 'md5', 'blake2b') for x in dag_nodes(t))
     keyed = any(x == ('p', 'key') for x in dag_nodes(t))
+    # the digest input must be the key itself (encoded): any other transformation (normalisation, case folding, truncation) can merge distinct keys
+    hashed = [x[2][0] for x in dag_nodes(t) if x[0] == 'call' and x[1].split('.')[-1] in ('sha256', 'sha512', 'sha1', 'md5', 'blake2b') and x[2]]
+    injective = bool(hashed) and all(h in (('call', 'encode', (('p', 'key'),)), ('call', 'encode', (('str', ('p', 'key')),))) for h in hashed)
+    R.check(injective, 'R14.4', 'FileCache.filepath: hashed text', key_of('hashed-text', [pretty(h)[:80] for h in hashed]), 'digest of key.encode()',
+            f'the file name is derived from `{[pretty(h)[:80] for h in hashed]}` instead of the key itself: distinct keys that the transformation identifies share one cache file', where=where(fp))
     R.check(full and strong and keyed, 'R14.4', 'FileCache.filepath', key_of('digest-slices', lo_hi, sorted(digests)), f'path = {pretty(t)}',
             f'cache file path does not use the whole digest of the key (slices {lo_hi}): distinct keys can share a file', witness=[pretty(t)], where=where(fp))
     sc = fc.lookup('subcache')
